@@ -96,14 +96,20 @@ def _nw_nt(case_text):
 
 
 def compose_block(case_text, r):
-    """Sync instance; raises ValueError if the program is outside the product's domain"""
+    """Sync instance: one mutex with its condition variables, or one felock (status + inner mutex + its two
+    condition queues = one SyncModel state); raises ValueError if the program is outside the product's domain"""
     groups, nt = trace.sync_groups(case_text)
-    groups = [g for g in groups if g["mutex"]]
-    if len(groups) != 1 or groups[0]["felock"]:
-        raise ValueError("compose: exactly one mutex group expected")
-    g = groups[0]
-    names = set([g["mutex"]] + g["conds"])
+    fes = [g for g in groups if g["felock"]]
+    mus = [g for g in groups if g["mutex"]]
     nw, nt2 = _nw_nt(case_text)
+    if len(fes) == 1 and not mus:
+        g = fes[0]
+        slines, ssrc = trace.sync_block(g, nt, r["events"])
+        return merge(case_text, r, slines, ssrc, "begin sync %d %d 2" % (nw, nt), SYNC_PUSH, {g["felock"]})
+    if len(mus) != 1 or fes:
+        raise ValueError("compose: exactly one mutex group or exactly one felock expected")
+    g = mus[0]
+    names = set([g["mutex"]] + g["conds"])
     slines, ssrc = trace.sync_block(g, nt, r["events"])
     return merge(case_text, r, slines, ssrc, "begin sync %d %d %d" % (nw, nt, max(1, len(g["conds"]))), SYNC_PUSH, names)
 
@@ -143,7 +149,7 @@ def uncond_block(case_text, r):
     return merge(case_text, r, pl, ps, "begin uncond %d %d" % (nw, nt), ("uncond.sig.push",), {us[0]})
 
 
-BLOCKS = {"sync": compose_block, "barrier": barrier_block, "jc": jc_block, "uncond": uncond_block}
+BLOCKS = {"sync": compose_block, "felock": compose_block, "barrier": barrier_block, "jc": jc_block, "uncond": uncond_block}
 
 
 def validate(driver, lines):
@@ -165,10 +171,10 @@ def oracle_blocked_parked(case_text, trace_text):
         head, _, snap = line.partition(" | ")
         w = head.split()
         obj = w[5] if len(w) > 5 else None
-        if obj not in objs or objs[obj][0] not in ("mutex", "cond", "jc", "barrier", "uncond"):
+        if obj not in objs or objs[obj][0] not in ("mutex", "cond", "jc", "barrier", "uncond", "felock"):
             continue
         mem = set()
-        for key in ("q", "stk"):
+        for key in ("q", "stk", "c0q", "c1q"):
             m = re.search(r"\b%s=\[([^\]]*)\]" % key, snap)
             if m:
                 mem |= set(x.strip() for x in m.group(1).split(",") if x.strip().startswith("t"))
@@ -196,7 +202,12 @@ def gen_kind_cases(ctx, kind, n):
     if kind == "sync":
         return gen_cases(ctx, n)
     out = []
-    if kind == "barrier":
+    if kind == "felock":
+        from props import c09
+        for i in range(n):
+            c = c09.gen_hold(r) if i % 4 == 3 else (c09.gen_baton(r) if i % 4 == 2 else c09.gen_case(r))
+            out.append(dict(c, text=_msnap(c["text"]), kind=kind))
+    elif kind == "barrier":
         from props import c06
         for _ in range(n):
             out.append({"text": _msnap(c06.gen_case(r, N=r.choice([2, 3, 5]))), "kind": kind})
@@ -216,7 +227,7 @@ def gen_kind_cases(ctx, kind, n):
     return out
 
 
-KINDS_OF = {"C04": ["sync"], "C05": ["sync"], "C09": ["sync"], "C06": ["barrier"], "C07": ["jc"], "C08": ["uncond"]}
+KINDS_OF = {"C04": ["sync"], "C05": ["sync"], "C09": ["felock"], "C06": ["barrier"], "C07": ["jc"], "C08": ["uncond"]}
 
 
 def gen_cases(ctx, n):
@@ -264,7 +275,7 @@ def attach(ctx, n_cases=40, prove=True):
     os.chmod(mine + ".tmp", 0o755)
     os.replace(mine + ".tmp", mine)
     drv = build_driver()
-    kinds = KINDS_OF.get(ctx.prop, ["sync", "barrier", "jc", "uncond"])
+    kinds = KINDS_OF.get(ctx.prop, ["sync", "felock", "barrier", "jc", "uncond"])
     cases = []
     for kd in kinds:
         cases += gen_kind_cases(ctx, kd, max(10, n_cases // len(kinds)) if len(kinds) > 1 else n_cases)
